@@ -60,6 +60,9 @@ CLAIMED = {
  'C16': ('exploration', 'ThreadSanitizer build + helgrind + DRD on the -O3 build over a multi-threaded workload with shared const objects; per-thread results vs sequential',
          '2..16 threads, thousands of thread-operations per run on own objects and shared pre-computed ISAP / masked keys; three race detectors each proven live by a planted race; results compared with sequential execution.',
          'Schedules sampled; happens-before detectors.', '4 C16'),
+ 'C18': ('exploration', 'generator re-execution + register/stack sentinel trampolines on native x86-64 and i386 code + instrumented text interpreters for 12 non-host assembly files + ELF/process stack-permission observer',
+         'All 18 generator outputs byte-compared (exhaustive over files); native x86-64 entry points (permutations, masked permutations, 35 masked-word functions) and the i386 permutation (32-bit static build) called through trampolines that check callee-saved registers, stack pointer, direction flag and caller-frame canaries; ARMv6, ARMv6-M, ARMv7-M, AArch64, AVR5 (+x2, x3, both strides), m68k (+ColdFire), RV32E/RV32I/RV64I and Xtensa (call0 + windowed) files executed by interpreters for all 12 starting rounds with result, ABI and memory-bounds assertions; GNU_STACK / .note.GNU-stack / live [stack] mapping.',
+         'Interpreters model the emitted ISA subsets, not hardware; states sampled.', '4 C18'),
  'C08': ('exploration', 'differential runtime monitor vs reference model + ASan/UBSan + guard pages',
          'Real library built for each of the 5 host backends (release and ASan+UBSan), every (offset,size) pair exhaustively, '
          'structured + random states for all 12 starting rounds, each output compared with an independent reference permutation.',
